@@ -1226,3 +1226,29 @@ def repair(s, rule, rng):
             dl[:] = [d for d in dl if d["name"] not in MUTATOR_DIRECTIVES]
         return m
     return None
+
+
+def deep_cases():
+    """chains around apollo's internal recursion limit of 32 (for the tie of the literal cycle models,
+    Schema/Cycles.v; outside the range of the verdict comparison)"""
+    out = []
+    q = "type Query { a: Int }\n"
+    for n in (2, 31, 32, 33, 34):
+        chain = "".join("input D%d { n: D%d! }\n" % (i, i + 1) for i in range(n - 1)) + "input D%d { x: Int }\n" % (n - 1)
+        out.append(("deep/input-chain-%d" % n, q + chain))
+        cyc = "".join("input D%d { n: D%d! }\n" % (i, (i + 1) % n) for i in range(n))
+        out.append(("deep/input-cycle-%d" % n, q + cyc))
+        tail = "".join("input D%d { n: D%d! }\n" % (i, i + 1) for i in range(n - 1)) + "input D%d { n: D%d! }\n" % (n - 1, n - 1)
+        out.append(("deep/input-tail-into-loop-%d" % n, q + tail))
+        dchain = "".join("directive @d%d(a: Int @d%d) on ARGUMENT_DEFINITION\n" % (i, i + 1) for i in range(n - 1)) \
+            + "directive @d%d(a: Int) on ARGUMENT_DEFINITION\n" % (n - 1)
+        out.append(("deep/directive-chain-%d" % n, q + dchain))
+        dcyc = "".join("directive @d%d(a: Int @d%d) on ARGUMENT_DEFINITION\n" % (i, (i + 1) % n) for i in range(n))
+        out.append(("deep/directive-cycle-%d" % n, q + dcyc))
+        tchain = "directive @d(a: T0) on FIELD\n" + "".join("input T%d { n: T%d }\n" % (i, i + 1) for i in range(n - 1)) \
+            + "input T%d { x: Int }\n" % (n - 1)
+        out.append(("deep/type-chain-%d" % n, q + tchain))
+        tcyc = "directive @d(a: T0) on INPUT_FIELD_DEFINITION\n" + "".join("input T%d { n: T%d }\n" % (i, i + 1) for i in range(n - 1)) \
+            + "input T%d { x: Int @d }\n" % (n - 1)
+        out.append(("deep/type-chain-back-to-directive-%d" % n, q + tcyc))
+    return out
